@@ -58,6 +58,21 @@ def extra(chk, g, tier):
         else:
             chk.ok("R-SCRATCH-GUARD", inst, sample={"function": F.name, "guards": [G.line for G in guards]})
     chk.rules["R-SCRATCH-GUARD"]["desc"] = "scr_size is examined before the scratch area is used"
+    # allocation results: the grid replaces yescrypt_kdf (and with it alloc_region/free_region) by a contract, so the
+    # allocator discipline of that code is decided structurally (C15's rule: result compared with its failure value
+    # before use, MAP_FAILED never escapes as a region)
+    from . import c15
+    from .. import summ
+    sub = Check("C04", tier)
+    sub.known = {}
+    api = m.reach([common.sym(m, n).name for n in common.ALL_API])
+    nalloc = c15.alloc_checked(sub, m, summ.Summaries(m), "shared", api)
+    if nalloc < 4:
+        raise AnalysisBroken("only %d allocator call sites found" % nalloc)
+    for v in sub.violations:
+        chk.fail("R-ALLOC-CHECKED", v["instance"], v["message"], v["loc"], v["detail"])
+    chk.count("R-ALLOC-CHECKED", sub.rules.get("R-ALLOC-CHECKED", {"ok": 0})["ok"], ["alloc"])
+    chk.rules["R-ALLOC-CHECKED"]["desc"] = "allocator results are compared with their failure value before use; a failed mmap never escapes as a usable region (imported from C15)"
     # gensalt entry points: reuse the C13 grid obligations
     from .. import gensalt_grid as G, gensalt_oracle as GO
     gg = G.run(tier)
